@@ -487,10 +487,10 @@ func (h *httpServerHandler) handlePostResponse(ctx context.Context, w http.Respo
 	}
 
 	// Deliver response using responseManager.
-	if h.responseManager.DeliverResponse(requestIDStr, responseMessage) {
+	if h.responseManager.DeliverResponse(requestIDStr, sessionID, responseMessage) {
 		h.logger.Debugf("Successfully delivered response for request ID: %v", response.ID)
 	} else {
-		h.logger.Debugf("Received response for unknown request ID: %v", response.ID)
+		h.logger.Debugf("Received response for unknown request ID: %v (or not from the session it was sent to)", response.ID)
 	}
 
 	// Send 202 Accepted response.
@@ -785,7 +785,7 @@ func (h *httpServerHandler) SendRequest(ctx context.Context, sessionID string, r
 
 	// Register request and get response channel.
 	requestIDStr := requestIDKey(request.ID)
-	responseChan := h.responseManager.RegisterRequest(requestIDStr)
+	responseChan := h.responseManager.RegisterRequest(requestIDStr, sessionID)
 	defer h.responseManager.UnregisterRequest(requestIDStr)
 
 	// Send the request through GET SSE using the proper sendRequest method.
@@ -840,9 +840,16 @@ func (h *httpServerHandler) isValidPath(requestPath string) bool {
 	return requestPath == h.serverPath
 }
 
+// pendingRequest is a server-issued request waiting for its answer: the channel of the waiting SendRequest call
+// and the session the request was sent to.
+type pendingRequest struct {
+	sessionID    string
+	responseChan chan *json.RawMessage
+}
+
 // responseManager manages pending requests and their response channels.
 type responseManager struct {
-	pendingRequests map[string]chan *json.RawMessage
+	pendingRequests map[string]*pendingRequest
 	mutex           sync.RWMutex
 	requestIDGen    atomic.Int64
 }
@@ -850,7 +857,7 @@ type responseManager struct {
 // newResponseManager creates a new response manager.
 func newResponseManager() *responseManager {
 	return &responseManager{
-		pendingRequests: make(map[string]chan *json.RawMessage),
+		pendingRequests: make(map[string]*pendingRequest),
 	}
 }
 
@@ -859,11 +866,11 @@ func (rm *responseManager) GenerateRequestID() string {
 	return fmt.Sprintf("server_req_%d", rm.requestIDGen.Add(1))
 }
 
-// RegisterRequest registers a request and returns a response channel.
-func (rm *responseManager) RegisterRequest(requestID string) chan *json.RawMessage {
+// RegisterRequest registers a request sent to the given session and returns a response channel.
+func (rm *responseManager) RegisterRequest(requestID string, sessionID string) chan *json.RawMessage {
 	responseChan := make(chan *json.RawMessage, 1)
 	rm.mutex.Lock()
-	rm.pendingRequests[requestID] = responseChan
+	rm.pendingRequests[requestID] = &pendingRequest{sessionID: sessionID, responseChan: responseChan}
 	rm.mutex.Unlock()
 	return responseChan
 }
@@ -875,18 +882,19 @@ func (rm *responseManager) UnregisterRequest(requestID string) {
 	rm.mutex.Unlock()
 }
 
-// DeliverResponse delivers a response to the waiting request.
-func (rm *responseManager) DeliverResponse(requestID string, response *json.RawMessage) bool {
+// DeliverResponse delivers a response to the waiting request. Only the session the request was sent to may
+// answer it: a response arriving from another session is not delivered and the request keeps waiting.
+func (rm *responseManager) DeliverResponse(requestID string, sessionID string, response *json.RawMessage) bool {
 	rm.mutex.RLock()
-	responseChan, exists := rm.pendingRequests[requestID]
+	pending, exists := rm.pendingRequests[requestID]
 	rm.mutex.RUnlock()
 
-	if !exists {
+	if !exists || pending.sessionID != sessionID {
 		return false
 	}
 
 	select {
-	case responseChan <- response:
+	case pending.responseChan <- response:
 		return true
 	default:
 		return false
